@@ -405,6 +405,18 @@ pub enum Kind {
     },
     Stuck,
     StepLimit,
+    MockAnswer {
+        id: u64,
+        parses: bool,
+        own: Option<bool>,
+        other: Option<bool>,
+        cfg: BTreeMap<String, String>,
+        forced_etag: bool,
+    },
+    MockFailure {
+        id: u64,
+        what: String,
+    },
     Note(String),
 }
 
